@@ -137,7 +137,7 @@ func c10One(c *fw.Ctx, id string, i int) {
 	}
 	// a second package with its own file (target of cross-package moves)
 	otherSpec := &gen.FileSpec{Name: "o0.go", Naming: map[string]string{}, Snippets: []int{r.Intn(len(gen.Snippets)), r.Intn(len(gen.Snippets))}}
-	for _, k := range []string{"A", "B", "C", "D", "E", "F"} {
+	for _, k := range []string{"A", "B", "C", "D", "E", "F", "G"} {
 		switch r.Intn(3) {
 		case 1:
 			otherSpec.Naming[k] = "o" + strings.ToLower(k)
@@ -146,7 +146,7 @@ func c10One(c *fw.Ctx, id string, i int) {
 	if r.Intn(3) == 0 {
 		otherSpec.Naming["D"] = "."
 	}
-	for _, k := range []string{"A", "B", "C", "E", "F"} {
+	for _, k := range []string{"A", "B", "C", "E", "F", "G"} {
 		if r.Intn(4) == 0 {
 			otherSpec.Blank = append(otherSpec.Blank, k)
 		}
